@@ -37,3 +37,11 @@ func VerifUuidExt(name string) (uuid, ext string, listed bool) {
 	uuid, ext = uuidExt(name)
 	return uuid, ext, uuidRegexp.MatchString(uuid)
 }
+
+// VerifValueFieldByName exposes the walk a search makes along a field path (object_index.go)
+func VerifValueFieldByName(v reflect.Value, fields []string) (reflect.Value, bool) {
+	return valueFieldByName(v, fields)
+}
+
+// VerifFieldPath exposes the splitting of a field path
+func VerifFieldPath(path string) []string { return fieldPath(path) }
